@@ -64,6 +64,20 @@ InStrayNext == steps < MaxSteps /\
         \/ (p2in # <<>> /\ (PeerPubrec(1) \/ PeerPuback(1) \/ PeerPubcomp(1))))
 InStraySpec == Init /\ [][InStrayNext]_vars
 
+(* C20 / C02, client role: many inbound QoS 2 exchanges open at once (a server may send as many PUBLISHes as it likes
+   before the first PUBREL): the queue of incoming exchanges grows beyond its 16 entries after its head has moved.
+   Long random behaviours generated with TLC -simulate; one payload per packet identifier, identifiers round-robin. *)
+InOpen == {p2in[i].id : i \in 1..Len(p2in)}
+InManyNext == steps < MaxSteps /\
+  \/ (nreq = 0 /\ AppSubscribe(<<AH>>))
+  \/ (nreq = 1 /\ sb # <<>> /\ PeerSuback(1, <<0>>))
+  \/ (nreq = 1 /\ sb = <<>> /\
+        \/ \E n \in 1..3 : \E pid \in {i \in 1..40 : i \notin InOpen /\ i = ((steps * 7) % 40) + 1} :
+              PeerPublish2(AB, pid, "m" \o ToString(pid), FALSE)
+        \/ (p2in # <<>> /\ PeerPubrel(Head(p2in).id))
+        \/ (Len(p2in) > 1 /\ PeerPubrel(p2in[Len(p2in)].id)))
+InManySpec == Init /\ [][InManyNext \/ ManyFinish]_vars
+
 (* C20, the local subscription tree over EVERY history of subscribe / unsubscribe requests of a given length (requests
    naming filters the tree knows and filters it does not, repeated filters, any order), observed by one probe publish
    at the end: what the tree has become is implementation state that one witness per transition does not pin down   *)
